@@ -820,6 +820,20 @@ class MBXML:
                     token_config.attributes = newattrs
                     (token_config.value, idx) = cls.read_opaque(data, idx)
                 elif token_config.length == 0:
+                    # no opaque data, but attributes without pre-set (implied) value are on the wire
+                    newattrs = []
+                    for attr_id in token_config.attributes:
+                        attr_config = copy(
+                            doctype_configuration[MBXMLTokenType.ATTRIBUTE_TOKEN][
+                                attr_id
+                            ]
+                        )
+                        if attr_config.value is None:
+                            (attr_config.value, idx) = cls.read_uintvar(data, idx)
+                            newattrs.append(attr_config)
+                        else:
+                            newattrs.append(attr_id)
+                    token_config.attributes = newattrs
                     token_config.value = b""
                 else:
                     (token_config.value, idx) = cls.read_opaque(data, idx)
